@@ -169,10 +169,10 @@ print(json.dumps(out, default=repr))
 '''
 
 
-def cross_process(dc, sc, res, rng, shards, seeds, label):
+def cross_process(dc, sc, res, rng, shards, seeds, label, keys=None):
     d = sc.new()
     pool = d + '.pool'
-    keys = [k for k in c03_keys(rng)]
+    keys = [k for k in c03_keys(rng)] if keys is None else list(keys)
     # values identify the LAST key stored under each identity
     expected = {}
     for i, k in enumerate(keys):
